@@ -6,10 +6,11 @@ MODULES = ["AdaptiveProofs.Props.C19"]
 
 def run(ctx):
     return rc.run_check(
-        ctx, MODULES, [("c19", rc.oracle_c19)], faults=False,
+        ctx, MODULES, [("c19", rc.oracle_c19)], faults=False, real_time=True,
         explanation="same runner model with log=True; Props/C19.lean proves log = projection of the call trace, every "
                     "logged ask has n>=1, and that replaying the log then discarding equals the original learner for "
-                    "every deterministic learner whose tell commutes with remove_unfinished (instance: SequenceLearner model)")
+                    "every deterministic learner whose tell commutes with remove_unfinished (instance: SequenceLearner model); "
+                    "runs with duration_goal on a real clock (thread pool, sleeping function) complement the deterministic schedules")
 
 
 def replay(ctx, path):
